@@ -3,6 +3,7 @@ import glob, json, os, random, re, time
 import vlib
 from vlib import Case, log, VERIF, CACHE, FLAVOURS
 import node_chan as nc
+import search_chan as sc
 
 
 # ----------------------------------------------------------------------------
@@ -369,4 +370,172 @@ class C03(NodeSpec):
         return nc.oracle_contract(case.cls, case.steps, obs)
 
 
-REGISTRY = {"C01": C01, "C02": C02, "C03": C03}
+
+# ----------------------------------------------------------------------------
+# C04 - C10: the search channel
+# ----------------------------------------------------------------------------
+class SearchSpec(CaseSpec):
+    algos = ("bfs",)
+    whats = ("find", "path")
+    classes = ("D", "U")
+    level_q, level_t = 2, 2
+    vals_variants = False
+
+    def cases(self, tier, rng):
+        out = []
+        for cls in self.classes:
+            if tier == "thorough":
+                out += sc.gen_cases(cls, rng, tier, self.algos, self.whats, level=self.level_t, n_small=3, m_small=3,
+                                    nrandom=400, vals_variants=self.vals_variants)
+                out += sc.gen_cases(cls, rng, tier, self.algos, self.whats, level=1, n_small=4, m_small=3, nrandom=0,
+                                    prefix="t", vals_variants=False)
+            else:
+                out += sc.gen_cases(cls, rng, tier, self.algos, self.whats, level=self.level_q, n_small=3, m_small=2,
+                                    nrandom=40, vals_variants=self.vals_variants)
+                out += sc.gen_cases(cls, rng, tier, self.algos, self.whats, level=0, n_small=3, m_small=3, nrandom=0, prefix="m")
+        return out
+
+    def exhaustive(self, tier):
+        if tier == "thorough":
+            return ("all multigraphs (every insertion order) on 3 nodes with <=3 edges x every root/target/option x {no method, for_each, 2 salted "
+                    "filters, every subset of rejected oriented edges}; all on 4 nodes with <=3 edges x every root/target x {none, each, 2 filters}")
+        return ("all multigraphs (every insertion order) on 3 nodes with <=2 edges x every root/target/option x {no method, for_each, 2 salted filters, "
+                "every subset of rejected oriented edges}; all on 3 nodes with 3 edges x {none, each}")
+
+    def rule(self):
+        return ("one case = one graph (built by connect calls) followed by searches %s x %s with every root, every target key (plus an absent "
+                "key and no target), transpose on/off (directed) and the methods listed under exhaustive_space; plus seeded random graphs up to 40 nodes / "
+                "120 edges with 40 random searches each. compared: returned node/path/ordering (edges with endpoints and values, to_vec_nodes, len) and the "
+                "exact sequence of edges handed to the closure. distinct = distinct step list; non-trivial = graph has at least one edge" % (self.algos, self.whats))
+
+    def nontrivial(self, case):
+        return any(s.startswith("con ") for s in case.steps)
+
+    def sample(self, case):
+        return dict(name=case.name, cls=case.cls, steps=case.steps[:12] + (["... %d more" % (len(case.steps) - 12)] if len(case.steps) > 12 else []))
+
+    def oracle(self, case, flavour, obs):
+        return sc.oracle_case(case, obs)
+
+
+class C04(SearchSpec):
+    algos, whats = ("bfs",), ("find", "path")
+
+
+class C05(SearchSpec):
+    algos, whats = ("dfs",), ("find", "path")
+
+
+class C06(SearchSpec):
+    algos, whats = ("pmin", "pmax"), ("find", "path")
+    vals_variants = True
+    level_q, level_t = 1, 2
+
+    def cases(self, tier, rng):
+        out = SearchSpec.cases(self, tier, rng)
+        # node comparison operators on all pairs of (key, value) combinations from {1,2,3} x {0,1,2}
+        for cls in self.classes:
+            steps, n = [], 0
+            for k in (1, 2, 3):
+                for v in (0, 1, 2):
+                    steps.append("new %d %d" % (k, v))
+                    n += 1
+            for a in range(n):
+                for b in range(n):
+                    steps.append("cmp %d %d" % (a, b))
+            out.append(Case("cmp" + cls, cls, steps, dict(kind="node-comparison")))
+        return out
+
+    def nontrivial(self, case):
+        return True
+
+
+class C07(SearchSpec):
+    algos, whats = ("bfs", "dfs", "pmin", "pmax", "pre", "post"), ("path", "nodes", "edges", "cycle")
+    level_q, level_t = 2, 2
+
+    def cases(self, tier, rng):
+        out = []
+        for cls in self.classes:
+            if tier == "thorough":
+                out += sc.gen_cases(cls, rng, tier, self.algos, self.whats, level=2, n_small=3, m_small=3, nrandom=300)
+            else:
+                out += sc.gen_cases(cls, rng, tier, self.algos, self.whats, level=2, n_small=3, m_small=2, nrandom=30)
+        return out
+
+
+class C08(SearchSpec):
+    algos, whats = ("bfs", "dfs", "pmin", "pmax", "pre", "post"), ("find", "path", "cycle", "nodes", "edges")
+    classes = ("D",)
+    level_q, level_t = 1, 1
+
+    def cases(self, tier, rng):
+        # every graph together with its explicit reversal (nodes n..2n-1, keys + 100, edges inserted in the same global order):
+        # a transposed search on G must print what the plain search prints on reverse(G), modulo the key offset
+        out = []
+        graphs = list(sc.all_graphs("D", 3, 3 if tier == "thorough" else 2))
+        for i in range(300 if tier == "thorough" else 40):
+            graphs.append(sc.random_graph("D", rng, maxn=20, maxe=50))
+        for gi, g in enumerate(graphs):
+            n = g.n
+            steps = g.steps()
+            steps += ["new %d %d" % (k + 1000, v) for k, v in zip(g.keys, g.vals)]
+            steps += ["con %d %d %d" % (v + n, u + n, e) for (u, v, e) in g.edges]
+            roots = range(n) if n <= 3 else [rng.randrange(n) for _ in range(3)]
+            for algo in self.algos:
+                order = algo in ("pre", "post")
+                for what in self.whats:
+                    if order != (what in ("nodes", "edges")):
+                        continue
+                    for root in roots:
+                        tgs = [None] if what not in ("find", "path") else ([g.keys[x] for x in range(n)] if n <= 3 else [g.keys[rng.randrange(n)]])
+                        for tg in tgs:
+                            for m in (None, ("each",), ("filt", 1, 3)):
+                                steps.append(sc.srch(algo, what, root, True, tg, m))
+                                m2 = m
+                                steps.append(sc.srch(algo, what, root + n, False, None if tg is None else tg + 1000, m2) + " #rev")
+                                steps.append(sc.srch(algo, what, root, False, tg, m))
+            out.append(Case("tr%d" % gi, "D", steps, dict(kind="graph+reversal", nodes=n, edges=len(g.edges))))
+        return out
+
+    def oracle(self, case, flavour, obs):
+        msg = None
+        if obs == "HANG":
+            return "call never returns"
+        # metamorphic: transposed search on G == plain search on reverse(G) (keys + 1000); filters use keys, so only
+        # `none`/`each` runs are compared literally
+        import re
+        def norm(t):
+            return re.sub(r"\b1(\d\d\d)\b", lambda mm: str(int(mm.group(1))), t)
+        for i, (si, text) in enumerate(obs):
+            st = case.steps[si] if si < len(case.steps) else ""
+            if text.startswith("panic"):
+                return "step %d `%s` panicked" % (si, st)
+            if st.endswith("#rev") and " filt " not in st and i > 0:
+                prev = obs[i - 1][1]
+                if norm(text) != prev:
+                    return "step %d: transposed search `%s` printed `%s` but the same search on the reversed graph printed `%s`" % (
+                        si - 1, case.steps[si - 1], prev[:100], norm(text)[:100])
+        # plus the direct property oracle on the G part
+        g = sc.graph_of_case(case)
+        n = len(g.keys) // 2
+        g2 = sc.G("D", g.keys, g.vals, g.edges)
+        for (si, text) in obs:
+            st = case.steps[si]
+            if st.startswith("srch") and not st.endswith("#rev"):
+                m = sc.check_srch(g2, st, text)
+                if m:
+                    return "step %d `%s` -> `%s`: %s" % (si, st, text[:100], m)
+        return None
+
+
+class C09(SearchSpec):
+    algos, whats = ("bfs", "dfs", "pmin", "pmax"), ("cycle",)
+
+
+class C10(SearchSpec):
+    algos, whats = ("pre", "post"), ("nodes", "edges")
+
+
+REGISTRY = {"C01": C01, "C02": C02, "C03": C03, "C04": C04, "C05": C05, "C06": C06, "C07": C07, "C08": C08,
+            "C09": C09, "C10": C10}
